@@ -3,6 +3,7 @@ package main
 import (
 	"fmt"
 	"math/big"
+	"regexp"
 	"sort"
 	"strings"
 
@@ -83,6 +84,8 @@ type contractRun struct {
 	fusions   []*definition.FusionInfo
 	stakes    []*definition.StakeInfo
 	htlcs     []*definition.HtlcInfo
+	pillars   []*definition.PillarInfo
+	sentinels []*definition.SentinelInfo
 	deadIds   []types.Hash // ids of entries that were released (for repeated attempts)
 	preimages map[types.Hash][]byte
 	proxy     map[types.Address]bool // htlc: explicit proxy-unlock settings seen in confirmed receives
@@ -126,6 +129,14 @@ type decoded struct {
 	name     string
 	htlc     *definition.CreateHtlcParam
 	preimage []byte
+	reg      *definition.RegisterParam
+}
+
+var pillarNameRe = regexp.MustCompile("^([a-zA-Z0-9]+[-._]?)*[a-zA-Z0-9]$")
+
+// pillarNameOk is the oracle for checkPillarNameStatic (unexported): same length bound, same expression
+func pillarNameOk(name string) bool {
+	return len(name) != 0 && len(name) <= constants.PillarNameLengthMax && pillarNameRe.MatchString(name)
 }
 
 func abiOf(a types.Address) *contractABI {
@@ -170,6 +181,26 @@ func decodeCall(contract types.Address, data []byte) *decoded {
 			if ca.abi.UnpackMethod(&d.id, m.Name, data) == nil {
 				d.args, d.modelled = []string{h8z(d.id)}, true
 			}
+		}
+	case types.PillarContract:
+		switch m.Name {
+		case definition.DepositQsrMethodName, definition.WithdrawQsrMethodName, definition.UndelegateMethodName:
+			d.args, d.modelled = []string{}, true
+		case definition.RegisterMethodName, definition.UpdatePillarMethodName:
+			p := new(definition.RegisterParam)
+			if ca.abi.UnpackMethod(p, m.Name, data) == nil {
+				d.reg, d.name = p, p.Name
+				d.args, d.modelled = []string{p.Name, addrName(p.ProducerAddress), addrName(p.RewardAddress), fmt.Sprint(p.GiveBlockRewardPercentage), fmt.Sprint(p.GiveDelegateRewardPercentage), fmt.Sprint(pillarNameOk(p.Name))}, true
+			}
+		case definition.RevokeMethodName, definition.DelegateMethodName:
+			if ca.abi.UnpackMethod(&d.name, m.Name, data) == nil {
+				d.args, d.modelled = []string{d.name, fmt.Sprint(pillarNameOk(d.name))}, true
+			}
+		}
+	case types.SentinelContract:
+		switch m.Name {
+		case definition.DepositQsrMethodName, definition.WithdrawQsrMethodName, definition.RegisterSentinelMethodName, definition.RevokeSentinelMethodName:
+			d.args, d.modelled = []string{}, true
 		}
 	case types.HtlcContract:
 		switch m.Name {
@@ -342,6 +373,18 @@ func (r *contractRun) monitorReceive(b, send *nom.AccountBlock, d *decoded, stat
 			} else if lk != nil && lk.paidAt == 0 && ack.Height >= lk.matureH && send.Amount.Sign() == 0 {
 				r.fail("liveness: matured CancelFuse of %s by its owner was refused at frontier height %d (locked until %d)", key, ack.Height, lk.matureH)
 			}
+			if !ok {
+				switch {
+				case send.Amount.Sign() != 0:
+					r.c.Hit("refusal-plasma.CancelFuse-carries-amount")
+				case lk == nil:
+					r.c.Hit("refusal-plasma.CancelFuse-not-owner-or-unknown-id")
+				case lk.paidAt != 0:
+					r.c.Hit("refusal-plasma.CancelFuse-already-released")
+				case ack.Height < lk.matureH:
+					r.c.Hit("refusal-plasma.CancelFuse-too-early")
+				}
+			}
 		}
 	case types.StakeContract:
 		switch d.method {
@@ -373,6 +416,16 @@ func (r *contractRun) monitorReceive(b, send *nom.AccountBlock, d *decoded, stat
 				}
 			} else if lk != nil && lk.paidAt == 0 && ackT >= lk.matureT && send.Amount.Sign() == 0 {
 				r.fail("liveness: matured Cancel of %s by its owner was refused at frontier time %d (locked until %d)", key, ackT, lk.matureT)
+			}
+			if !ok {
+				switch {
+				case send.Amount.Sign() != 0:
+					r.c.Hit("refusal-stake.Cancel-carries-amount")
+				case lk == nil:
+					r.c.Hit("refusal-stake.Cancel-not-owner-or-unknown-id")
+				case ackT < lk.matureT:
+					r.c.Hit("refusal-stake.Cancel-too-early")
+				}
 			}
 		}
 	case types.HtlcContract:
@@ -412,6 +465,20 @@ func (r *contractRun) monitorReceive(b, send *nom.AccountBlock, d *decoded, stat
 				r.deadIds = append(r.deadIds, d.id)
 			} else if lk != nil && lk.paidAt == 0 && send.Address == lk.entitled && ackT >= lk.matureT && send.Amount.Sign() == 0 {
 				r.fail("liveness: Reclaim of the expired htlc %s by its time-locked party was refused at frontier time %d (expired at %d)", key, ackT, lk.matureT)
+			}
+			if !ok {
+				switch {
+				case send.Amount.Sign() != 0:
+					r.c.Hit("refusal-htlc.Reclaim-carries-amount")
+				case lk == nil:
+					r.c.Hit("refusal-htlc.Reclaim-unknown-id")
+				case lk.paidAt != 0:
+					r.c.Hit("refusal-htlc.Reclaim-already-released")
+				case send.Address != lk.entitled:
+					r.c.Hit("refusal-htlc.Reclaim-not-the-time-locked-party")
+				case ackT < lk.matureT:
+					r.c.Hit("refusal-htlc.Reclaim-too-early")
+				}
 			}
 		case definition.UnlockHtlcMethodName:
 			key := lockKey(b.Address, "htlc", h8z(d.id))
@@ -462,6 +529,28 @@ func (r *contractRun) monitorReceive(b, send *nom.AccountBlock, d *decoded, stat
 			} else if lk != nil && lk.paidAt == 0 && allowed() && ackT < lk.matureT && preimageOk() && send.Amount.Sign() == 0 && !types.IsEmbeddedAddress(lk.second) {
 				r.fail("liveness: Unlock of %s with the correct preimage before expiry (frontier time %d < %d) was refused", key, ackT, lk.matureT)
 			}
+			if !ok {
+				switch {
+				case send.Amount.Sign() != 0:
+					r.c.Hit("refusal-htlc.Unlock-carries-amount")
+				case lk == nil:
+					r.c.Hit("refusal-htlc.Unlock-unknown-id")
+				case lk.paidAt != 0:
+					r.c.Hit("refusal-htlc.Unlock-already-released")
+				case !allowed():
+					r.c.Hit("refusal-htlc.Unlock-proxy-denied")
+				case ackT >= lk.matureT:
+					r.c.Hit("refusal-htlc.Unlock-expired")
+				case len(d.preimage) > int(lk.keyMax):
+					r.c.Hit("refusal-htlc.Unlock-preimage-too-long")
+				case !preimageOk():
+					r.c.Hit("refusal-htlc.Unlock-wrong-preimage")
+				case types.IsEmbeddedAddress(lk.second):
+					r.c.Hit("refusal-htlc.Unlock-beneficiary-is-a-contract")
+				}
+			} else if lk != nil && send.Address != lk.second {
+				r.c.Hit("htlc-unlock-by-proxy")
+			}
 		case definition.DenyHtlcProxyUnlockMethodName:
 			if ok {
 				r.proxy[send.Address] = false
@@ -471,7 +560,140 @@ func (r *contractRun) monitorReceive(b, send *nom.AccountBlock, d *decoded, stat
 				r.proxy[send.Address] = true
 			}
 		}
+	case types.PillarContract, types.SentinelContract:
+		qkey := cname(b.Address) + "/" + addrName(send.Address)
+		logged := r.qsrLog[qkey]
+		if logged == nil {
+			logged = new(big.Int)
+		}
+		inWindow := func(regT, lock, revoke int64) bool { return (ackT-regT)%(lock+revoke) >= lock }
+		switch {
+		case d.method == definition.DepositQsrMethodName:
+			if ok {
+				r.qsrLog[qkey] = new(big.Int).Add(logged, send.Amount)
+				if len(b.DescendantBlocks) != 0 {
+					r.fail("release: DepositQsr produced %d descendant blocks", len(b.DescendantBlocks))
+				}
+			}
+		case d.method == definition.WithdrawQsrMethodName:
+			if ok {
+				if len(b.DescendantBlocks) != 1 || b.DescendantBlocks[0].ToAddress != send.Address || b.DescendantBlocks[0].TokenStandard != types.QsrTokenStandard ||
+					b.DescendantBlocks[0].Amount.Cmp(logged) != 0 {
+					r.fail("release: WithdrawQsr(%s) by %s paid %s, the confirmed deposits of that account minus what registrations consumed are %s QSR", cname(b.Address), addrName(send.Address), descString(b), amt(logged))
+				}
+				r.qsrLog[qkey] = new(big.Int)
+			} else if logged.Sign() > 0 && send.Amount.Sign() == 0 {
+				r.fail("liveness: WithdrawQsr(%s) by %s was refused although %s QSR are deposited", cname(b.Address), addrName(send.Address), amt(logged))
+			} else {
+				r.c.Hit("refusal-" + cname(b.Address) + ".WithdrawQsr-nothing-deposited-or-amount")
+			}
+		case b.Address == types.PillarContract && d.method == definition.RegisterMethodName:
+			if ok {
+				if len(b.DescendantBlocks) != 1 || b.DescendantBlocks[0].ToAddress != types.TokenContract || b.DescendantBlocks[0].TokenStandard != types.QsrTokenStandard ||
+					tokCallString(b.DescendantBlocks[0].Data) != "burn" {
+					r.fail("release: pillar Register must burn the QSR cost, got %s", descString(b))
+					break
+				}
+				burned := b.DescendantBlocks[0].Amount
+				if burned.Cmp(logged) > 0 {
+					r.fail("release: pillar Register by %s burned %s QSR, only %s were deposited by that account", addrName(send.Address), amt(burned), amt(logged))
+				}
+				r.qsrLog[qkey] = new(big.Int).Sub(logged, burned)
+				key := lockKey(b.Address, "pillar", d.name)
+				if old := r.locks[key]; old != nil {
+					r.fail("release: pillar name %s registered twice", d.name)
+				}
+				r.locks[key] = &lockRec{contract: b.Address, kind: "pillar", key: key, entitled: send.Address, tok: send.TokenStandard, amount: new(big.Int).Set(send.Amount), regT: ackT}
+			}
+		case b.Address == types.PillarContract && d.method == definition.RevokeMethodName:
+			key := lockKey(b.Address, "pillar", d.name)
+			lk := r.locks[key]
+			if ok {
+				var to types.Address
+				if lk != nil {
+					to = lk.entitled
+				}
+				r.releaseCheck(b, "Revoke(pillar)", lk, key, to, 0, h)
+				if lk != nil {
+					if send.Address != lk.entitled {
+						r.fail("release: Revoke of pillar %s was called by %s, its stake address is %s", d.name, addrName(send.Address), addrName(lk.entitled))
+					}
+					if !inWindow(lk.regT, r.p.pillarLock, r.p.pillarRevoke) {
+						r.fail("release: Revoke of pillar %s succeeded at frontier time %d outside the revoke window (registered %d, lock %d, window %d)", d.name, ackT, lk.regT, r.p.pillarLock, r.p.pillarRevoke)
+					}
+				}
+				if len(b.DescendantBlocks) != 1 {
+					r.fail("release: Revoke(pillar) produced %d descendant blocks", len(b.DescendantBlocks))
+				}
+			} else {
+				switch {
+				case send.Amount.Sign() != 0:
+					r.c.Hit("refusal-pillar.Revoke-carries-amount")
+				case lk == nil:
+					r.c.Hit("refusal-pillar.Revoke-unknown-name")
+				case lk.paidAt != 0:
+					r.c.Hit("refusal-pillar.Revoke-already-revoked")
+				case send.Address != lk.entitled:
+					r.c.Hit("refusal-pillar.Revoke-not-the-owner")
+				case !inWindow(lk.regT, r.p.pillarLock, r.p.pillarRevoke):
+					r.c.Hit("refusal-pillar.Revoke-outside-window")
+				default:
+					r.fail("liveness: Revoke of pillar %s by its owner inside the revoke window (frontier time %d, registered %d) was refused", d.name, ackT, lk.regT)
+				}
+			}
+		case b.Address == types.SentinelContract && d.method == definition.RegisterSentinelMethodName:
+			if ok {
+				if constants.SentinelQsrDepositAmount.Cmp(logged) > 0 {
+					r.fail("release: sentinel Register by %s succeeded with only %s QSR deposited", addrName(send.Address), amt(logged))
+				}
+				r.qsrLog[qkey] = new(big.Int).Sub(logged, constants.SentinelQsrDepositAmount)
+				kz, kq := lockKey(b.Address, "sentinel-znn", addrName(send.Address)), lockKey(b.Address, "sentinel-qsr", addrName(send.Address))
+				if r.locks[kz] != nil {
+					r.fail("release: sentinel of %s registered twice", addrName(send.Address))
+				}
+				r.locks[kz] = &lockRec{contract: b.Address, kind: "sentinel-znn", key: kz, entitled: send.Address, tok: types.ZnnTokenStandard, amount: new(big.Int).Set(send.Amount), regT: ackT}
+				r.locks[kq] = &lockRec{contract: b.Address, kind: "sentinel-qsr", key: kq, entitled: send.Address, tok: types.QsrTokenStandard, amount: new(big.Int).Set(constants.SentinelQsrDepositAmount), regT: ackT}
+				if len(b.DescendantBlocks) != 0 {
+					r.fail("release: sentinel Register produced %d descendant blocks", len(b.DescendantBlocks))
+				}
+			}
+		case b.Address == types.SentinelContract && d.method == definition.RevokeSentinelMethodName:
+			kz, kq := lockKey(b.Address, "sentinel-znn", addrName(send.Address)), lockKey(b.Address, "sentinel-qsr", addrName(send.Address))
+			lz, lq := r.locks[kz], r.locks[kq]
+			if ok {
+				r.releaseCheck(b, "Revoke(sentinel, ZNN)", lz, kz, send.Address, 0, h)
+				r.releaseCheck(b, "Revoke(sentinel, QSR)", lq, kq, send.Address, 1, h)
+				if lz != nil && !inWindow(lz.regT, r.p.sentinelLock, r.p.sentinelRevoke) {
+					r.fail("release: Revoke of the sentinel of %s succeeded at frontier time %d outside the revoke window (registered %d, lock %d, window %d)", addrName(send.Address), ackT, lz.regT, r.p.sentinelLock, r.p.sentinelRevoke)
+				}
+				if len(b.DescendantBlocks) != 2 {
+					r.fail("release: Revoke(sentinel) produced %d descendant blocks", len(b.DescendantBlocks))
+				}
+			} else {
+				switch {
+				case send.Amount.Sign() != 0:
+					r.c.Hit("refusal-sentinel.Revoke-carries-amount")
+				case lz == nil:
+					r.c.Hit("refusal-sentinel.Revoke-not-registered")
+				case lz.paidAt != 0:
+					r.c.Hit("refusal-sentinel.Revoke-already-revoked")
+				case !inWindow(lz.regT, r.p.sentinelLock, r.p.sentinelRevoke):
+					r.c.Hit("refusal-sentinel.Revoke-outside-window")
+				default:
+					r.fail("liveness: Revoke of the sentinel of %s inside the revoke window (frontier time %d, registered %d) was refused", addrName(send.Address), ackT, lz.regT)
+				}
+			}
+		}
 	}
+}
+
+func descString(b *nom.AccountBlock) string {
+	var sb strings.Builder
+	fmt.Fprintf(&sb, "%d descendants:", len(b.DescendantBlocks))
+	for _, d := range b.DescendantBlocks {
+		fmt.Fprintf(&sb, " %s %s -> %s", amt(d.Amount), tokName(d.TokenStandard), addrName(d.ToAddress))
+	}
+	return sb.String()
 }
 
 // ---------------------------------------------------------------------------------------------------
@@ -676,6 +898,108 @@ func (r *contractRun) compareState(h uint64) {
 		c.Emit("K-digest htlc | %d %d", len(hl), len(pl))
 	}
 
+	// ---- pillar ----
+	qsrSeen := map[string]bool{}
+	dumpQsr := func(a types.Address) {
+		dl, err := definition.AllQsrDepositVerif(r.storage(a))
+		if err != nil {
+			r.fail("AllQsrDepositVerif(%s): %v", cname(a), err)
+		}
+		sort.Slice(dl, func(i, j int) bool { return string(dl[i].Address[:]) < string(dl[j].Address[:]) })
+		total := new(big.Int)
+		for _, e := range dl {
+			if full(a) {
+				c.Emit("K-qsr %s %s | %s", cname(a), addrName(*e.Address), amt(e.Qsr))
+			}
+			owed[a].add(types.QsrTokenStandard, e.Qsr)
+			total.Add(total, e.Qsr)
+			k := cname(a) + "/" + addrName(*e.Address)
+			qsrSeen[k] = true
+			lg := r.qsrLog[k]
+			if lg == nil {
+				lg = new(big.Int)
+			}
+			if lg.Cmp(e.Qsr) != 0 {
+				r.fail("storage: %s records a QSR deposit of %s for %s, the confirmed deposits minus consumption and withdrawals are %s", cname(a), amt(e.Qsr), addrName(*e.Address), amt(lg))
+			}
+		}
+		c.Emit("K-digest qsr-%s | %d %s", cname(a), len(dl), amt(total))
+	}
+	{
+		st := r.storage(types.PillarContract)
+		pl, err := definition.GetPillarsList(st, false, definition.AnyPillarType)
+		if err != nil {
+			r.fail("GetPillarsList: %v", err)
+		}
+		sort.Slice(pl, func(i, j int) bool { return pl[i].Name < pl[j].Name })
+		r.pillars = pl
+		total := new(big.Int)
+		for _, e := range pl {
+			if full(types.PillarContract) {
+				c.Emit("K-pillar %s | %s %s %d %d %s %s %d %d %d", e.Name, addrName(e.StakeAddress), amt(e.Amount), e.RegistrationTime, e.RevokeTime, addrName(e.BlockProducingAddress),
+					addrName(e.RewardWithdrawAddress), e.PillarType, e.GiveBlockRewardPercentage, e.GiveDelegateRewardPercentage)
+			}
+			owed[types.PillarContract].add(types.ZnnTokenStandard, e.Amount)
+			total.Add(total, e.Amount)
+			checkLock(lockKey(types.PillarContract, "pillar", e.Name), e.Amount, "pillar")
+			if (e.RevokeTime != 0) != (e.Amount.Sign() == 0) {
+				r.fail("storage: pillar %s has revoke time %d and amount %s", e.Name, e.RevokeTime, amt(e.Amount))
+			}
+		}
+		if full(types.PillarContract) {
+			for _, kp := range g.AllKeyPairs {
+				pp, err := definition.GetProducingPillarName(st, kp.Address)
+				if err == nil && pp != nil {
+					c.Emit("K-producing %s | %s", addrName(kp.Address), pp.Name)
+				} else {
+					c.Emit("K-producing %s | none", addrName(kp.Address))
+				}
+			}
+			dl, err := definition.GetDelegationsList(st)
+			if err != nil {
+				r.fail("GetDelegationsList: %v", err)
+			}
+			sort.Slice(dl, func(i, j int) bool { return string(dl[i].Backer[:]) < string(dl[j].Backer[:]) })
+			for _, e := range dl {
+				c.Emit("K-deleg %s | %s", addrName(e.Backer), e.Name)
+			}
+			c.Emit("K-ndeleg | %d", len(dl))
+		}
+		c.Emit("K-digest pillar | %d %s", len(pl), amt(total))
+		dumpQsr(types.PillarContract)
+	}
+	// ---- sentinel ----
+	{
+		sl := definition.GetAllSentinelInfo(r.storage(types.SentinelContract))
+		sort.Slice(sl, func(i, j int) bool { return string(sl[i].Owner[:]) < string(sl[j].Owner[:]) })
+		r.sentinels = sl
+		tz, tq := new(big.Int), new(big.Int)
+		for _, e := range sl {
+			if full(types.SentinelContract) {
+				c.Emit("K-sentinel %s | %d %d %s %s", addrName(e.Owner), e.RegistrationTimestamp, e.RevokeTimestamp, amt(e.ZnnAmount), amt(e.QsrAmount))
+			}
+			owed[types.SentinelContract].add(types.ZnnTokenStandard, e.ZnnAmount)
+			owed[types.SentinelContract].add(types.QsrTokenStandard, e.QsrAmount)
+			tz.Add(tz, e.ZnnAmount)
+			tq.Add(tq, e.QsrAmount)
+			checkLock(lockKey(types.SentinelContract, "sentinel-znn", addrName(e.Owner)), e.ZnnAmount, "sentinel collateral (ZNN)")
+			checkLock(lockKey(types.SentinelContract, "sentinel-qsr", addrName(e.Owner)), e.QsrAmount, "sentinel collateral (QSR)")
+		}
+		c.Emit("K-digest sentinel | %d %s %s", len(sl), amt(tz), amt(tq))
+		dumpQsr(types.SentinelContract)
+	}
+	// a logged deposit must be recorded
+	qk := make([]string, 0, len(r.qsrLog))
+	for k := range r.qsrLog {
+		qk = append(qk, k)
+	}
+	sort.Strings(qk)
+	for _, k := range qk {
+		if r.qsrLog[k].Sign() != 0 && !qsrSeen[k] {
+			r.fail("storage: the QSR deposit %s of %s QSR (confirmed, not consumed, not withdrawn) is not recorded in storage", k, amt(r.qsrLog[k]))
+		}
+	}
+
 	// every open lock of the log must still be recorded (a lock that vanished without a payout is lost money)
 	lkeys := make([]string, 0, len(r.locks))
 	for k := range r.locks {
@@ -777,6 +1101,15 @@ func contractHistory(c *Ctx, id int) {
 	c.Emit("K-param stakeTimeUnit %d", p.stakeUnit)
 	c.Emit("K-param stakeTimeMin %d", p.stakeMin)
 	c.Emit("K-param stakeTimeMax %d", p.stakeMax)
+	c.Emit("K-param pillarStakeAmount %s", amt(constants.PillarStakeAmount))
+	c.Emit("K-param pillarQsrBase %s", amt(constants.PillarQsrStakeBaseAmount))
+	c.Emit("K-param pillarQsrIncrease %s", amt(constants.PillarQsrStakeIncreaseAmount))
+	c.Emit("K-param pillarLock %d", p.pillarLock)
+	c.Emit("K-param pillarRevoke %d", p.pillarRevoke)
+	c.Emit("K-param sentinelZnn %s", amt(constants.SentinelZnnRegisterAmount))
+	c.Emit("K-param sentinelQsr %s", amt(constants.SentinelQsrDepositAmount))
+	c.Emit("K-param sentinelLock %d", p.sentinelLock)
+	c.Emit("K-param sentinelRevoke %d", p.sentinelRevoke)
 
 	// the genesis state is the initial state of the model and of the lock log
 	store := n.Chain().GetFrontierMomentumStore()
@@ -804,6 +1137,27 @@ func contractHistory(c *Ctx, id int) {
 	sort.Slice(fa, func(i, j int) bool { return string(fa[i].Beneficiary[:]) < string(fa[j].Beneficiary[:]) })
 	for _, f := range fa {
 		c.Emit("K-init-fused %s %s", addrName(f.Beneficiary), amt(f.Amount))
+	}
+	gp, err := definition.GetPillarsList(r.storage(types.PillarContract), false, definition.AnyPillarType)
+	if err != nil {
+		r.fail("genesis pillars: %v", err)
+		return
+	}
+	sort.Slice(gp, func(i, j int) bool { return gp[i].Name < gp[j].Name })
+	for _, e := range gp {
+		c.Emit("K-init-pillar %s %s %s %d %d %s %s %d %d %d", e.Name, addrName(e.StakeAddress), amt(e.Amount), e.RegistrationTime, e.RevokeTime, addrName(e.BlockProducingAddress),
+			addrName(e.RewardWithdrawAddress), e.PillarType, e.GiveBlockRewardPercentage, e.GiveDelegateRewardPercentage)
+		key := lockKey(types.PillarContract, "pillar", e.Name)
+		r.locks[key] = &lockRec{contract: types.PillarContract, kind: "pillar", key: key, entitled: e.StakeAddress, tok: types.ZnnTokenStandard, amount: new(big.Int).Set(e.Amount), regT: e.RegistrationTime}
+	}
+	gd, err := definition.GetDelegationsList(r.storage(types.PillarContract))
+	if err != nil {
+		r.fail("genesis delegations: %v", err)
+		return
+	}
+	sort.Slice(gd, func(i, j int) bool { return string(gd[i].Backer[:]) < string(gd[j].Backer[:]) })
+	for _, e := range gd {
+		c.Emit("K-init-deleg %s %s", addrName(e.Backer), e.Name)
 	}
 	r.compareState(n.Height())
 	if r.failed {
@@ -1001,6 +1355,9 @@ func contractHistory(c *Ctx, id int) {
 	}
 	genHtlc := func() {
 		y := c.R.Intn(100)
+		if len(r.htlcs) == 0 && y >= 35 && y < 90 && c.R.Intn(5) != 0 {
+			y = 0 // nothing to release yet: create
+		}
 		switch {
 		case y < 35: // Create
 			from := pick(users)
@@ -1054,6 +1411,9 @@ func contractHistory(c *Ctx, id int) {
 			var e *definition.HtlcInfo
 			if len(r.htlcs) > 0 && c.R.Intn(10) != 0 {
 				e = r.htlcs[c.R.Intn(len(r.htlcs))]
+				for k := 0; k < 4 && e.ExpirationTime <= frontierTime()+10; k++ { // prefer entries that can still be unlocked
+					e = r.htlcs[c.R.Intn(len(r.htlcs))]
+				}
 			} else if len(r.deadIds) > 0 {
 				e = &definition.HtlcInfo{Id: r.deadIds[c.R.Intn(len(r.deadIds))], HashLocked: pick(users), TimeLocked: pick(users)}
 			} else {
@@ -1108,6 +1468,227 @@ func contractHistory(c *Ctx, id int) {
 		}
 	}
 
+	pillarKeys := []types.Address{g.Pillar1.Address, g.Pillar2.Address, g.Pillar3.Address, g.Pillar4.Address, g.Pillar5.Address, g.Pillar6.Address, g.Pillar7.Address, g.Pillar8.Address}
+	rich := []types.Address{g.Pillar4.Address, g.Pillar5.Address, g.Pillar6.Address, g.Pillar7.Address, g.Pillar8.Address, g.User1.Address, g.User2.Address}
+	newNames := 0
+	depositCall := func(to types.Address, from types.Address) {
+		am := qsr(int64(1000 * (1 + c.R.Intn(60))))
+		tok := types.QsrTokenStandard
+		switch c.R.Intn(10) {
+		case 0:
+			am = big.NewInt(int64(1 + c.R.Intn(1000)))
+		case 1:
+			am = big.NewInt(0)
+		case 2:
+			tok = types.ZnnTokenStandard
+			am = qsr(int64(1 + c.R.Intn(10)))
+		case 3, 4: // exactly what the next registration needs
+			if to == types.PillarContract {
+				active := 0
+				for _, e := range r.pillars {
+					if e.RevokeTime == 0 && e.PillarType == definition.NormalPillarType {
+						active++
+					}
+				}
+				am = new(big.Int).Add(constants.PillarQsrStakeBaseAmount, new(big.Int).Mul(constants.PillarQsrStakeIncreaseAmount, big.NewInt(int64(active))))
+			} else {
+				am = new(big.Int).Set(constants.SentinelQsrDepositAmount)
+			}
+			if c.R.Intn(4) == 0 {
+				am.Sub(am, big.NewInt(1)) // one unit short
+			}
+		}
+		call(from, to, tok, am, "DepositQsr", definition.ABICommon.PackMethodPanic(definition.DepositQsrMethodName))
+	}
+	withdrawCall := func(to types.Address, from types.Address) {
+		am, tok := withAmount()
+		call(from, to, tok, am, "WithdrawQsr", definition.ABICommon.PackMethodPanic(definition.WithdrawQsrMethodName))
+	}
+	balanceOf := func(a types.Address, t types.ZenonTokenStandard) *big.Int {
+		b, _ := n.Chain().GetFrontierAccountStore(a).GetBalance(t)
+		if b == nil {
+			return new(big.Int)
+		}
+		return b
+	}
+	// a complete valid flow: deposit what the registration costs (sometimes more), wait for the receive, register
+	flow := func(to types.Address) bool {
+		need := new(big.Int).Set(constants.SentinelQsrDepositAmount)
+		znn := constants.SentinelZnnRegisterAmount
+		if to == types.PillarContract {
+			active := 0
+			for _, e := range r.pillars {
+				if e.RevokeTime == 0 && e.PillarType == definition.NormalPillarType {
+					active++
+				}
+			}
+			need = new(big.Int).Add(constants.PillarQsrStakeBaseAmount, new(big.Int).Mul(constants.PillarQsrStakeIncreaseAmount, big.NewInt(int64(active))))
+			znn = constants.PillarStakeAmount
+		}
+		var cands []types.Address
+		for _, a := range rich {
+			if balanceOf(a, types.QsrTokenStandard).Cmp(need) >= 0 && balanceOf(a, types.ZnnTokenStandard).Cmp(znn) >= 0 {
+				cands = append(cands, a)
+			}
+		}
+		if len(cands) == 0 {
+			return true
+		}
+		from := pick(cands)
+		am := new(big.Int).Set(need)
+		if c.R.Intn(3) == 0 && balanceOf(from, types.QsrTokenStandard).Cmp(new(big.Int).Add(need, qsr(500))) >= 0 {
+			am.Add(am, qsr(int64(1+c.R.Intn(500)))) // a surplus stays deposited and can be withdrawn
+		}
+		if call(from, to, types.QsrTokenStandard, am, "DepositQsr", definition.ABICommon.PackMethodPanic(definition.DepositQsrMethodName)) == nil {
+			return true
+		}
+		if !advance(2) {
+			return false
+		}
+		if to == types.PillarContract {
+			used := map[types.Address]bool{}
+			for _, kp := range pillarKeys {
+				if pp, err := definition.GetProducingPillarName(r.storage(types.PillarContract), kp); err == nil && pp != nil {
+					used[kp] = true
+				}
+			}
+			var free []types.Address
+			for _, kp := range pillarKeys[3:] {
+				if !used[kp] {
+					free = append(free, kp)
+				}
+			}
+			if len(free) == 0 {
+				return true
+			}
+			name := fmt.Sprintf("vp-%d-%d", id, newNames)
+			newNames++
+			call(from, to, types.ZnnTokenStandard, znn, "Register", definition.ABIPillars.PackMethodPanic(definition.RegisterMethodName, name, pick(free), pick(everyone), uint8(c.R.Intn(101)), uint8(c.R.Intn(101))))
+			c.Hit("flow-pillar-register")
+		} else {
+			call(from, to, types.ZnnTokenStandard, znn, "Register", definition.ABISentinel.PackMethodPanic(definition.RegisterSentinelMethodName))
+			c.Hit("flow-sentinel-register")
+		}
+		return true
+	}
+	genPillar := func() bool {
+		y := c.R.Intn(100)
+		if c.R.Intn(5) == 0 {
+			return flow(types.PillarContract)
+		}
+		switch {
+		case y < 25:
+			depositCall(types.PillarContract, pick(rich))
+		case y < 35:
+			from := pick(rich)
+			if c.R.Intn(4) == 0 {
+				from = pick(users)
+			}
+			withdrawCall(types.PillarContract, from)
+		case y < 60: // Register: new name / taken name, free / taken producer address, right / wrong amount
+			from := pick(rich)
+			name := fmt.Sprintf("vp-%d-%d", id, newNames)
+			newNames++
+			producer := pick(pillarKeys[3:])
+			am := new(big.Int).Set(constants.PillarStakeAmount)
+			tok := types.ZnnTokenStandard
+			switch c.R.Intn(12) {
+			case 0:
+				if len(r.pillars) > 0 {
+					name = r.pillars[c.R.Intn(len(r.pillars))].Name // taken (possibly by a revoked pillar)
+				}
+			case 1:
+				producer = pick(pillarKeys[:3]) // producing address of a genesis pillar
+			case 2:
+				am = new(big.Int).Sub(am, big.NewInt(1))
+			case 3:
+				tok = types.QsrTokenStandard
+			case 4:
+				name = "bad name!"
+			}
+			call(from, types.PillarContract, tok, am, "Register", definition.ABIPillars.PackMethodPanic(definition.RegisterMethodName, name, producer, pick(everyone), uint8(c.R.Intn(101)), uint8(c.R.Intn(120))))
+		case y < 85: // Revoke: owner / other, inside / outside the window, repeated, unknown
+			var name string
+			var from types.Address
+			switch {
+			case len(r.pillars) > 0 && c.R.Intn(8) != 0:
+				e := r.pillars[c.R.Intn(len(r.pillars))]
+				name, from = e.Name, e.StakeAddress
+				if c.R.Intn(5) == 0 {
+					from = pick(rich)
+				}
+				// the chain needs producers: the owners of the first two genesis pillars never revoke
+				if from == e.StakeAddress && (e.Name == g.Pillar1Name || e.Name == g.Pillar2Name) {
+					from = pick(rich)
+				}
+			default:
+				name, from = fmt.Sprintf("unknown-%d", c.R.Intn(5)), pick(rich)
+			}
+			am, tok := withAmount()
+			call(from, types.PillarContract, tok, am, "Revoke", definition.ABIPillars.PackMethodPanic(definition.RevokeMethodName, name))
+		case y < 93:
+			name := g.Pillar1Name
+			if len(r.pillars) > 0 {
+				name = r.pillars[c.R.Intn(len(r.pillars))].Name
+			}
+			if c.R.Intn(6) == 0 {
+				name = "nobody"
+			}
+			call(pick(users), types.PillarContract, types.ZnnTokenStandard, zero, "Delegate", definition.ABIPillars.PackMethodPanic(definition.DelegateMethodName, name))
+		case y < 97:
+			call(pick(users), types.PillarContract, types.ZnnTokenStandard, zero, "Undelegate", definition.ABIPillars.PackMethodPanic(definition.UndelegateMethodName))
+		default: // UpdatePillar by owner / other: reward address and percentages, producing address among the nodes' keys
+			if len(r.pillars) == 0 {
+				return true
+			}
+			e := r.pillars[c.R.Intn(len(r.pillars))]
+			from := e.StakeAddress
+			if c.R.Intn(4) == 0 {
+				from = pick(rich)
+			}
+			producer := e.BlockProducingAddress
+			if c.R.Intn(3) == 0 {
+				producer = pick(pillarKeys[3:])
+			}
+			call(from, types.PillarContract, types.ZnnTokenStandard, zero, "UpdatePillar", definition.ABIPillars.PackMethodPanic(definition.UpdatePillarMethodName, e.Name, producer, pick(everyone), uint8(c.R.Intn(101)), uint8(c.R.Intn(101))))
+		}
+		return true
+	}
+	genSentinel := func() bool {
+		y := c.R.Intn(100)
+		if c.R.Intn(5) == 0 {
+			return flow(types.SentinelContract)
+		}
+		switch {
+		case y < 30:
+			depositCall(types.SentinelContract, pick(rich))
+		case y < 42:
+			from := pick(rich)
+			if c.R.Intn(4) == 0 {
+				from = pick(users)
+			}
+			withdrawCall(types.SentinelContract, from)
+		case y < 65:
+			am := new(big.Int).Set(constants.SentinelZnnRegisterAmount)
+			tok := types.ZnnTokenStandard
+			switch c.R.Intn(10) {
+			case 0:
+				am = new(big.Int).Add(am, big.NewInt(1))
+			case 1:
+				tok = types.QsrTokenStandard
+			}
+			call(pick(rich), types.SentinelContract, tok, am, "Register", definition.ABISentinel.PackMethodPanic(definition.RegisterSentinelMethodName))
+		default:
+			from := pick(rich)
+			if len(r.sentinels) > 0 && c.R.Intn(5) != 0 {
+				from = r.sentinels[c.R.Intn(len(r.sentinels))].Owner
+			}
+			am, tok := withAmount()
+			call(from, types.SentinelContract, tok, am, "Revoke", definition.ABISentinel.PackMethodPanic(definition.RevokeSentinelMethodName))
+		}
+		return true
+	}
+
 	// run to the edge of a lock — just before / exactly at / just after maturity — then the entitled party withdraws
 	genEdge := func() bool {
 		var open []*lockRec
@@ -1117,8 +1698,20 @@ func contractHistory(c *Ctx, id int) {
 		}
 		sort.Strings(keys)
 		for _, k := range keys {
-			if l := r.locks[k]; l.paidAt == 0 && (l.matureH > n.Height() || (l.matureT > frontierTime() && l.matureT < frontierTime()+10*int64(budget))) {
-				open = append(open, l)
+			l := r.locks[k]
+			if l.paidAt != 0 {
+				continue
+			}
+			switch l.kind {
+			case "pillar", "sentinel-znn":
+				if l.key != lockKey(types.PillarContract, "pillar", g.Pillar1Name) && l.key != lockKey(types.PillarContract, "pillar", g.Pillar2Name) {
+					open = append(open, l)
+				}
+			case "sentinel-qsr":
+			default:
+				if l.matureH > n.Height() || (l.matureT > frontierTime() && l.matureT < frontierTime()+10*int64(budget)) {
+					open = append(open, l)
+				}
 			}
 		}
 		if len(open) == 0 {
@@ -1128,9 +1721,28 @@ func contractHistory(c *Ctx, id int) {
 		delta := int64(c.R.Intn(3)) - 1
 		// a send submitted at frontier F is confirmed in F+1 and received with F+1 as its frontier momentum
 		var need int64
-		if l.kind == "fusion" {
+		switch l.kind {
+		case "fusion":
 			need = int64(l.matureH) + delta - 1 - int64(n.Height())
-		} else {
+		case "pillar", "sentinel-znn":
+			// the next opening or closing of the revoke window
+			lock, rev := r.p.pillarLock, r.p.pillarRevoke
+			if l.kind != "pillar" {
+				lock, rev = r.p.sentinelLock, r.p.sentinelRevoke
+			}
+			cyc := lock + rev
+			phase := (frontierTime() - l.regT) % cyc
+			var target int64
+			if c.R.Intn(2) == 0 {
+				target = frontierTime() + ((lock-phase)%cyc+cyc)%cyc // window opens
+			} else {
+				target = frontierTime() + (cyc - phase) // window closes
+			}
+			need = (target-frontierTime())/10 + delta - 1
+			if need > 400 {
+				return true
+			}
+		default:
 			need = (l.matureT-frontierTime())/10 + delta - 1
 		}
 		if need < 0 || int(n.Height()-start)+int(need) > budget {
@@ -1156,6 +1768,12 @@ func contractHistory(c *Ctx, id int) {
 					c.Hit(fmt.Sprintf("edge-stake-delta%+d", delta))
 				}
 			}
+		case "pillar":
+			call(l.entitled, types.PillarContract, types.ZnnTokenStandard, zero, "Revoke", definition.ABIPillars.PackMethodPanic(definition.RevokeMethodName, last))
+			c.Hit(fmt.Sprintf("edge-pillar-window-delta%+d", delta))
+		case "sentinel-znn":
+			call(l.entitled, types.SentinelContract, types.ZnnTokenStandard, zero, "Revoke", definition.ABISentinel.PackMethodPanic(definition.RevokeSentinelMethodName))
+			c.Hit(fmt.Sprintf("edge-sentinel-window-delta%+d", delta))
 		case "htlc":
 			for _, e := range r.htlcs {
 				if h8z(e.Id) != last {
@@ -1176,11 +1794,11 @@ func contractHistory(c *Ctx, id int) {
 	for s := 0; s < steps && !r.failed && int(n.Height()-start) < budget; s++ {
 		x := c.R.Intn(100)
 		switch {
-		case x < 20:
+		case x < 14:
 			genPlasma()
-		case x < 40:
+		case x < 28:
 			genStake()
-		case x < 65:
+		case x < 46:
 			if withHtlc {
 				genHtlc()
 			} else if c.R.Intn(2) == 0 {
@@ -1188,7 +1806,15 @@ func contractHistory(c *Ctx, id int) {
 			} else {
 				genStake()
 			}
-		case x < 77:
+		case x < 60:
+			if !genPillar() {
+				return
+			}
+		case x < 72:
+			if !genSentinel() {
+				return
+			}
+		case x < 82:
 			if !genEdge() {
 				return
 			}
